@@ -1102,6 +1102,7 @@ class NestedPipeFunc(PipeFunc):
         self._output_name: OUTPUT_TYPE = output_name or self._all_outputs
         self.debug = False  # The underlying PipeFuncs will handle this
         self.cache = any(f.cache for f in self.pipeline.functions)
+        self.internal_shape = None  # read by `Pipeline.map`
         self._output_picker = None
         self._profile = False
         self._renames: dict[str, str] = renames or {}
